@@ -30,6 +30,7 @@ import logging
 import random
 
 from harness import core, irgen, native, project_ir
+from harness import armrun
 from harness.tlc import MachineryError
 
 logging.getLogger().addHandler(logging.NullHandler())   # ppci warns through logging; keep the check's output clean
@@ -596,6 +597,7 @@ class Engine:
         part = (ctx.only or {}).get("case", {}).get("part", "x86_64") if ctx.only else os.environ.get("C05_PART", "")
         if ctx.only is not None:
             thorough = ctx.only.get("tier", ctx.tier) == "thorough"
+        if armrun.c05_hook(ctx, thorough, part, only): return   # arm / thumb part (tla/ArmExec.tla); True: C05_PART=arm or a replay of one of its cases
         if part in ("", "riscv"):
             from engines import c05rv
 
